@@ -174,8 +174,18 @@ func (t *SemVerType) Default() px.Type {
 }
 
 func (t *SemVerType) Equals(o interface{}, g px.Guard) bool {
-	_, ok := o.(*SemVerType)
-	return ok
+	ot, ok := o.(*SemVerType)
+	return ok && t.vRange.Equals(ot.vRange)
+}
+
+// ToKey writes the range in its normalized form: Equals compares the parsed ranges, not the text they were parsed from
+func (t *SemVerType) ToKey(b *bytes.Buffer) {
+	b.WriteByte(1)
+	b.WriteByte(HkType)
+	appendElementKey(b, stringValue(t.Name()))
+	if !t.vRange.Equals(semver.MatchAll) {
+		appendTypeParamKey(b, stringValue(t.vRange.NormalizedString()))
+	}
 }
 
 func (t *SemVerType) Get(key string) (px.Value, bool) {
